@@ -149,6 +149,66 @@ func enumerate(thorough bool) (sp spaces, extra map[string]any) {
 			}
 		}
 	}
+	// 1c. exit-status dimension: every special status / death by signal x every command x the WHOLE (non-oversized)
+	// stderr alphabet under the honest reply, and x {empty, structured} stderr under unusable replies
+	nSpecial := 0
+	inProduct := map[string]bool{}
+	for _, ex := range exs {
+		inProduct[ex] = true
+	}
+	soReps := []string{"empty", "non-json"}
+	if thorough {
+		soReps = []string{"empty", "non-json", "null", "valid-then-garbage", "member-wrong-type"}
+	}
+	for _, cmd := range commands {
+		for _, ex := range specialExits {
+			if inProduct[ex] {
+				continue // thorough: already a member of the full product above
+			}
+			for _, se := range ses {
+				if !se.Pad {
+					sp.cheap = append(sp.cheap, Case{Cmd: cmd, Exit: ex, Stdout: "valid", Stderr: se.Name, Timing: tImmediate, Ctx: cBackground, Req: "small"})
+					nSpecial++
+				}
+			}
+			for _, so := range soReps {
+				for _, se := range []string{"empty", "err:ACCESS_DENIED"} {
+					sp.cheap = append(sp.cheap, Case{Cmd: cmd, Exit: ex, Stdout: so, Stderr: se, Timing: tImmediate, Ctx: cBackground, Req: "small"})
+					nSpecial++
+				}
+			}
+		}
+	}
+	// 1d. file-name family: every hand-labelled (file name, announced name) row as a complete metadata reply with
+	// exit 0 and empty stderr; and every file name x every command x {honest reply exit 0 (control), exit 1 with a
+	// structured error, exit 1 with empty stderr}: the file name must change nothing else
+	nNames := 0
+	for _, row := range nameRows {
+		sp.cheap = append(sp.cheap, Case{Cmd: "get-plugin-metadata", Exit: "0", Stdout: soAnnounces, Stderr: "empty", Timing: tImmediate, Ctx: cBackground, Req: "small", Plug: row.Plug, Announce: row.Announce})
+		nNames++
+		if thorough {
+			for _, v := range [][2]string{{"0", "err:ERROR"}, {"0", "non-json"}, {"1", "err:ERROR"}, {"1", "empty"}, {"killed", "empty"}} {
+				sp.cheap = append(sp.cheap, Case{Cmd: "get-plugin-metadata", Exit: v[0], Stdout: soAnnounces, Stderr: v[1], Timing: tImmediate, Ctx: cBackground, Req: "small", Plug: row.Plug, Announce: row.Announce})
+				nNames++
+			}
+		}
+	}
+	for _, plug := range plugNames() {
+		if plug == pluginName {
+			continue // the product above
+		}
+		for _, cmd := range commands {
+			for _, v := range [][2]string{{"0", "empty"}, {"1", "err:ERROR"}, {"1", "empty"}} {
+				sp.cheap = append(sp.cheap, Case{Cmd: cmd, Exit: v[0], Stdout: "valid", Stderr: v[1], Timing: tImmediate, Ctx: cBackground, Req: "small", Plug: plug})
+				nNames++
+			}
+		}
+	}
+	extra["alphabet_special_exit_statuses_and_signals"] = specialExits
+	extra["cases_special_exit_statuses"] = nSpecial
+	extra["alphabet_plugin_file_names"] = plugNames()
+	extra["alphabet_file_name_x_announced_name_rows(hand-labelled)"] = len(nameRows)
+	extra["cases_file_name_family"] = nNames
 	// 2. oversized streams x one representative of the others
 	sizes := func(cmd string, important bool) []int {
 		if thorough || important {
@@ -439,9 +499,11 @@ func main() {
 		return
 	}
 	r := hx.New("C17")
-	r.Rule = "E3: every behaviour tuple (command, exit, stdout kind, stderr kind, timing, context, request size) of the stated alphabet is run once as a real process through the real CLIPlugin: full product command x exit x stdout x stderr for the cheap kinds; oversized streams (65 MiB, 512 MiB) and timing/context behaviours crossed with one representative of the other dimensions, except 'complete stderr, then sleeps past the end of the context' (and its SIGTERM-ignoring twin), which is crossed with the whole stderr alphabet for every command and every ending context. Overlapping pairs: every ordered pair of a 7-member behaviour alphabet per command, call B run completely inside A's k-th log call (k=1..3, caller-supplied logger as the seam) or right after A (k=4), each call judged as if alone; a free-running concurrent-callers family is supplementary (Extra). Non-trivial = distinct tuples on which at least one judged clause applied (success forbidden / control / error type / cap / bounded delay)."
+	r.Rule = "E3: every behaviour tuple (command, exit, stdout kind, stderr kind, timing, context, request size) of the stated alphabet is run once as a real process through the real CLIPlugin: full product command x exit x stdout x stderr for the cheap kinds; oversized streams (65 MiB, 512 MiB) and timing/context behaviours crossed with one representative of the other dimensions, except 'complete stderr, then sleeps past the end of the context' (and its SIGTERM-ignoring twin), which is crossed with the whole stderr alphabet for every command and every ending context. Exit-status dimension: 10 further statuses with a conventional shell/wrapper meaning (3, 64, 125, 126, 127, 128, 130, 137, 143, 255) and 5 deaths by a signal other than SIGKILL (TERM, INT, HUP, PIPE, SEGV; generated sh plugin that kills itself after writing both streams) x every command x the whole non-oversized stderr alphabet under the honest reply, and x {empty, structured} stderr under unusable replies - to the statement each is just a failing process. File-name family: the plugin executable installed as notation-<P> for 10 names P (plain, .exe, .EXE, .sh, .bat, two-dot, version-like extension, inner dash, a name that itself starts with notation-, upper case), in a directory bearing the ANNOUNCED name; every hand-labelled row (P, announced name: equal / mismatch by a named near-miss class / lenient) as a complete metadata reply, and every P x every command x {honest reply, exit 1 with structured error, exit 1 with empty stderr}. Overlapping pairs: every ordered pair of a 7-member behaviour alphabet per command, call B run completely inside A's k-th log call (k=1..3, caller-supplied logger as the seam) or right after A (k=4), each call judged as if alone; a free-running concurrent-callers family is supplementary (Extra). Non-trivial = distinct tuples on which at least one judged clause applied (success forbidden / control / error type / cap / bounded delay)."
 	r.Assumptions = []string{
 		"stdout/stderr kinds are hand-labelled (honest, invalid-metadata:<clause>, undecodable, oversize, unjudged; structured:<code>, unstructured, huge); the oracle never parses a reply",
+		"file-name family: the plugin's file name is notation-<P> on this Unix host (an extension is part of P, as in CLIManager's naming); the rows (P, announced name) are written out by hand: equal => honest (positive control, the returned metadata must carry that name), mismatch => success forbidden (near misses: extension stripped/added, proper prefix either way, cut at a dash, prefix stripped twice), lenient => recorded only (letter case; the literal file name, prefix included)",
+		"exit statuses other than 0 and deaths by any signal are all 'a failing process': a structured error on stderr must come back as the plugin's own error whatever the status; no status is given a meaning of its own",
 		"null, {} and replies with extra members are recorded but not judged on the non-metadata commands; an honest reply with noise on stderr and exit 0 may be refused (implication)",
 		"the only timing oracle: a call returns within 20 s of the end of its context (expected <= 5.3 s with WaitDelay = 5 s; the descendant holds the pipes for 60 s); contexts of 300 ms are only combined with behaviours that outlast them by 60 s",
 		"cap monitor: peak RSS (VmHWM) growth of a dedicated worker process during the call <= 8 x 64 MiB per oversized stream; 512 MiB emitters make an unbounded buffer visible",
